@@ -18,6 +18,54 @@ def macro_names(n):
     return out
 
 
+def comparator_keys(rep, fb):
+    import re
+    cls = 'uscxml::LargeMicroStep'
+    rec = fb.records.get(cls)
+    if not rec:
+        raise AnalysisBroken('record %s not found' % cls)
+    used = {}
+    for r in (cls, cls + '::State', cls + '::Transition'):
+        for fld in fb.records.get(r, {}).get('fields', []):
+            m = re.search(r'flat_set<(State|Transition) \*, (\w+)>', fld.get('t') or '')
+            if m:
+                used.setdefault(m.group(2), []).append('%s::%s' % (r.split('::')[-1], fld['name']))
+    if len(used) < 3:
+        raise AnalysisBroken('ordered sets of the large engine: only %d comparators found' % len(used))
+    # fields that are shared by several elements: assigned a constant somewhere
+    shared = {}
+    for f in fb.funcs.values():
+        if f.rec != cls:
+            continue
+        for n in f.walk():
+            if n['k'] == 'BinaryOperator' and n.get('op') == '=':
+                l = strip(n['c'][0])
+                if l and l['k'] == 'MemberExpr' and l.get('ref', {}).get('rec', '').startswith(cls + '::'):
+                    r = strip(n['c'][1])
+                    const = r is not None and (r['k'] == 'IntegerLiteral' or 'cval' in r or any(
+                        x.get('callee', {}).get('q', '').startswith('std::numeric_limits') for x in sub(r)))
+                    if const:
+                        shared.setdefault((l['ref']['rec'], l['ref']['name']), []).append(n)
+    for cmp_name, where in sorted(used.items()):
+        op = fb.fn('%s::%s::operator()' % (cls, cmp_name))
+        keys = []
+        for n in op.walk():
+            if n['k'] == 'BinaryOperator' and n.get('op') in ('<', '>'):
+                names = {x['ref']['name'] for x in sub(n) if x['k'] == 'MemberExpr'}
+                recs = {x['ref'].get('rec') for x in sub(n) if x['k'] == 'MemberExpr'}
+                if len(names) == 1:
+                    keys.append((list(recs)[0], list(names)[0]))
+        if not keys:
+            raise AnalysisBroken('%s::operator(): no key comparison found' % cmp_name)
+        unique = [k for k in keys if k not in shared]
+        rep.check(bool(unique), 'R02.9', 'LargeMicroStep|%s' % cmp_name, op.where(),
+                  '%s (used by %s) orders by %s; %s' % (cmp_name, ', '.join(where[:4]), [k[1] for k in keys],
+                                                      'key(s) unique per element: %s' % [k[1] for k in unique] if unique else
+                                                      'every key is shared: %s is assigned the same constant for several elements at %s -- the set keeps only one of them' % (
+                                                          keys[0][1], ', '.join(locstr(x) for x in shared[keys[0]][:2]))))
+    rep.minimum('R02.9', len(used), 3, 'comparators of ordered state/transition sets')
+
+
 def run(rep, tier):
     rep.rule('R02.1', 'who may write the configuration: only the exit phase (remove) and enter phase (add) of step(), reset(), deserialize() (and init() sizing it)')
     rep.rule('R02.2', 'paired update (large engine): every insert/erase/clear on _configuration is mirrored on _configurationPostFix with the same operand in the same function, in the same order')
@@ -27,10 +75,12 @@ def run(rep, tier):
     rep.rule('R02.6', 'completion dispatch is exhaustive: the switch over the state kind in descendant completion has an arm for every kind code the engine assigns to a state')
     rep.rule('R02.8', 'pre-emption agrees with the exit sets: overlap tests on the closed exit intervals use non-strict comparisons')
     rep.rule('R02.7', 'history only names simultaneously active states: the history update is conditioned on membership in the configuration and precedes every configuration erase of the step (phase protocol)')
+    rep.rule('R02.9', 'ordered views keep every member: the comparator of each ordered set of states / transitions orders by at least one key that is unique per element (a key that several elements share, e.g. "no transitions = largest value", makes the set treat them as one member: inserts are dropped, erase removes the wrong state)')
     rep.assume('legality for every chart and history needs the values of the entry set: not decided')
     fb = facts.FactBase(facts.library_tus())
     ex = exc.ExcFlow(fb, infeasible=set(INFEASIBLE))
     rep.covered(tus=len(fb.tus), extracted=fb.extracted, functions=len(fb.funcs))
+    comparator_keys(rep, fb)
     for eq in ENGINES:
         sk = _skel.Skeleton(fb, ex, eq)
         f, g, eng, cls = sk.f, sk.g, sk.eng, sk.cls
